@@ -61,6 +61,11 @@ func (its *SnapshotDatatype) SetMetaAndSnapshot(meta, snap []byte) errors.OrdaEr
 	if err := json.Unmarshal(snap, its.GetSnapshot()); err != nil {
 		return errors.DatatypeMarshal.New(its.L(), err.Error())
 	}
+	// The imported state is the new rollback point; otherwise the first failed transaction
+	// would take the datatype back to the state it had before the import.
+	if tx, ok := its.Datatype.(interface{ ResetTransaction() errors.OrdaError }); ok {
+		return tx.ResetTransaction()
+	}
 	return nil
 }
 
